@@ -30,6 +30,38 @@ def variants(rep, spec, base):
 	cmp('relabelled (fresh build)', simlib.run_py(spec, relabel=relabel))
 	net, objs = simlib.build_py(spec)
 	cmp('relabelled (reindex_nodes)', simlib.run_py(spec, reindex_after=relabel, net_objs=(net, objs)))
+	# object life cycle: change attributes of the SAME objects after a run and simulate again == a fresh build with the new attributes
+	import copy
+	spec2 = copy.deepcopy(spec)
+	from stockpyl.policy import Policy
+	changed = []
+	for l in spec2['labels']:
+		nd = spec2['nodes'][str(l)]
+		obj = base['objs'][l]
+		if rng.random() < .5:
+			nd['slt'] = (nd['slt'] + 1) % 4; obj.shipment_lead_time = nd['slt']; changed.append('slt')
+		if rng.random() < .3:
+			nd['olt'] = (nd['olt'] + 1) % 3; obj.order_lead_time = nd['olt']; changed.append('olt')
+		if rng.random() < .5 and nd['policy']['t'] in ('BS', 'EBS'):
+			nd['policy']['a'] = core.fr(F(nd['policy']['a']) + 3); obj.inventory_policy.base_stock_level = simlib.num(nd['policy']['a']); changed.append('S')
+		if rng.random() < .3:
+			nd['cap'] = core.fr(F(7, 2)) if nd['cap'] in (None, '0') else None; obj.order_capacity = simlib.num(nd['cap']); changed.append('cap')
+		if rng.random() < .3:
+			nd['initIL'] = '6'; obj.initial_inventory_level = 6; changed.append('initIL')
+	if changed:
+		fresh = simlib.run_py(spec2)
+		again = simlib.run_py(spec2, net_objs=(base['net'], base['objs']))
+		if 'error' in fresh or 'error' in again:
+			if ('error' in fresh) != ('error' in again):
+				rep.diff('variants', 're-run after changing %s: %s' % (sorted(set(changed)), (again if 'error' in again else fresh).get('msg')), spec2, oracle=True, theorem=THEOREM)
+		else:
+			d = simlib.compare_traces(spec2, fresh, again)
+			if fresh['total'] != again['total']:
+				d.append((-1, 'simulation()', 'total', fresh['total'], again['total']))
+			if d:
+				rep.diff('variants', 'after changing %s on the same objects the re-run differs from a fresh network with the same attributes: %s' % (
+					sorted(set(changed)), simlib.fmt_diffs(d)), spec2, py={'changed': changed, 'diffs': [list(map(str, x)) for x in d[:8]]}, oracle=True, theorem=THEOREM)
+		rep.count('variants-rerun-after-attribute-change')
 	rep.count('variants-checked', 6)
 
 
